@@ -50,19 +50,26 @@ class _ReparseAll(Exception):
     source instead."""
 
 
-def _is_header_scaffold(a: AST) -> bool:
+def _is_scaffold_pass(body: list[AST], lines: list[str]) -> bool:
+    """Whether `body` is just OUR `pass`, the last thing on its line in `lines`. New header text can bring a `pass` of its
+    own and hide ours behind a comment (`a: pass #`)."""
+
+    return (len(body) == 1 and (b0 := body[0]).__class__ is Pass
+            and b0.end_col_offset == len(lines[b0.end_lineno - 1].encode()))
+
+
+def _is_header_scaffold(a: AST, lines: list[str]) -> bool:
     """Whether a block statement reparsed from its header alone holds just the scaffold which was put behind that header,
     a ` pass` body (`case _: pass` for a `Match`) and the `except: pass` of a `try`."""
 
     if a.__class__ is Match:
-        return (len(cases := a.cases) == 1 and not (case := cases[0]).guard and len(body := case.body) == 1
-                and body[0].__class__ is Pass)
+        return len(cases := a.cases) == 1 and not (case := cases[0]).guard and _is_scaffold_pass(case.body, lines)
 
-    if len(body := a.body) != 1 or body[0].__class__ is not Pass or getattr(a, 'orelse', None) or getattr(a, 'finalbody', None):
+    if not _is_scaffold_pass(a.body, lines) or getattr(a, 'orelse', None) or getattr(a, 'finalbody', None):
         return False
 
     if (handlers := getattr(a, 'handlers', None)) is not None:  # Try, TryStar
-        return len(handlers) == 1 and len(body := handlers[0].body) == 1 and body[0].__class__ is Pass
+        return len(handlers) == 1 and _is_scaffold_pass(handlers[0].body, lines)
 
     return True
 
@@ -121,7 +128,7 @@ def _reparse_raw_base(
         elif copy.col != self.col:  # statement moved to a different column, alone that is fine but not among its siblings or above its own body
             raise _ReparseAll
 
-        elif not set_ast and (copy.a.__class__ is not self.a.__class__ or not _is_header_scaffold(copy.a)):  # only block header reparsed and the old body will be reused, must still be same kind of block and hold nothing but the scaffold that was put behind the header (new header text can bring a colon and clauses of its own, 'a: pass\nelse')
+        elif not set_ast and (copy.a.__class__ is not self.a.__class__ or not _is_header_scaffold(copy.a, copy.root._lines)):  # only block header reparsed and the old body will be reused, must still be same kind of block and hold nothing but the scaffold that was put behind the header (new header text can bring a colon and clauses of its own, 'a: pass\nelse')
             raise _ReparseAll
 
         if (scaffold
@@ -235,7 +242,7 @@ def _reparse_raw_stmtlike(self: fst.FST, new_lines: list[str], ln: int, col: int
 
         copya = (parse_match_case if is_match_case else parse_ExceptHandler)('\n'.join(copy_lines), root._parse_params)  # copy_lines are copy_root._lines since lcopy was False
 
-        if in_blkhead and not _is_header_scaffold(copya):  # the new header text brought statements of its own, the old body cannot just be reused
+        if in_blkhead and not _is_header_scaffold(copya, copy_lines):  # the new header text brought statements of its own, the old body cannot just be reused
             raise _ReparseAll
 
         if not in_blkhead:  # if not just head then we just put the new source to offset everything maybe around us properly
